@@ -627,6 +627,8 @@ def _u5b(led, rid, ctx):
     run_rule(led, "S16", "PAIR-LOOP: all_different posts x_i != x_j for every pair i < j", s16, ctx)
     run_rule(led, "S3c", "the fallback scan for unfixed variables covers every domain (no resumed / partial scan)", s3c, ctx)
     run_rule(led, "S17", "backtrack resets the notified-trail mark", s17, ctx)
+    from . import fznrules as _fz
+    run_rule(led, "S20", "ZIP-ALIGNMENT: coefficients and variables are paired position by position in the library and the front ends (shared with C13-F11)", _fz.zip_alignment, ctx)
     run_rule(led, "S19", "API-FORWARD: each public variable constructor reaches exactly one engine constructor", s19, ctx)
     run_rule(led, "S18", "MUST-PASS: no path of a Constraint::post / implied_by returns Ok(()) without posting", s18, ctx)
     from . import kernel as _kernel
